@@ -19,6 +19,18 @@ Proof. vm_compute. reflexivity. Qed.
 Lemma generated_nodes_match : nodes_match nodes = true.
 Proof. vm_compute. reflexivity. Qed.
 
+Lemma generated_typerefs_match : typerefs_match typerefs = true.
+Proof. vm_compute. reflexivity. Qed.
+
+Theorem emitted_typerefs : forall t ids x, In (t, ids) typerefs -> In x ids -> x = t.
+Proof. intros t ids x. exact (typerefs_match_sound typerefs t ids x generated_typerefs_match). Qed.
+
+Lemma generated_defrefs_match : defrefs_match defrefs = true.
+Proof. vm_compute. reflexivity. Qed.
+
+Theorem emitted_defrefs : forall k want got, In (k, (want, got)) defrefs -> got = want.
+Proof. intros k want got. exact (defrefs_match_sound defrefs k want got generated_defrefs_match). Qed.
+
 (* the emitted accessors of every corpus field: round trip, frame, default, union *)
 Theorem emitted_roundtrip : forall f ir g st v s s', In (f, ir) fields ->
   strukt_ok s -> value_ok (fd_kind f) v -> a_get ir = Some g -> a_set ir = Some st ->
